@@ -1,0 +1,340 @@
+// Verification contracts (comment-only, compiled only with the "verif" build tag; read by /verif/govc).
+
+//go:build verif
+// +build verif
+
+package staking
+
+// Property C05 — "Only real equivocation is slashable, and it is slashed exactly once".
+//
+// Map of this file (DESIGN §7 C05; what is assumed / bounded / not decided: /verif/props/C05.json):
+//   clause 1  processDoubleSignV5: typestate asserted at the only call of doPenalize — two valid signatures of the signer's registered key over
+//             the vote payload of (own hash, round, index); the payload's byte layout is proved from the code. PENDING (real defects, see
+//             /verif/proposed_fixes/C05, /verif/findings_proposed/C05.json): [distinct-hashes], [same-kind].
+//   clause 2  [first-time-this-block] at that call, [one-map-per-block] in processEvidences.
+//   clause 3  [configured-fraction] at that call; takePenalty (+ closures setActual $1, updateCounter $2): conservation, take bounds; doPenalize:
+//             expelled record stored, exactly the amount taken credited to PenaltyTo.
+//   clause 4  filing typestate in processDoubleSignV5, slashing / replaySlashing thin contracts. PENDING: [penalised-implies-confirmed].
+
+// Helpers that only build strings / hashes / log payloads.
+//@ effectfree github.com/youchainhq/go-youchain/common.StringToHash github.com/youchainhq/go-youchain/common/hexutil.Encode
+//@ effectfree (github.com/youchainhq/go-youchain/common.Address).String github.com/youchainhq/go-youchain/rlp.EncodeToBytes
+//@ effectfree (github.com/youchainhq/go-youchain/core/state.Validators).Len
+
+// ---------------------------------------------------------------------------------------------------------------
+// Clause 1: acceptance implies real equivocation.
+// ---------------------------------------------------------------------------------------------------------------
+
+// BLS idealised. c05Signed(pk, e, r, i): the listed entry e = (Hash, Sign) is valid: e.Sign decodes to a valid BLS signature, under
+// key pk, of the vote payload cat(e.Hash, bytes(r), be32(i)) — i.e. the holder of pk signed SOME vote for block hash e.Hash at round r,
+// index i. The predicate is over the entry OBJECT (entries are immutable once decoded: no function of the package writes a SignInfo);
+// passing the 32-byte hash as an array value makes z3 spend its time in array extensionality (engine_requests/C05.md #4).
+//@ spec func c05Signed(pk: bls.PublicKey, e: *SignInfo, r: int, i: int) bool
+// The key / signature a byte string decodes to (a function of the byte string, identified with the slice value).
+//@ spec func c05Key(b: []byte) bls.PublicKey
+//@ spec func c05Sig(b: []byte) bls.Signature
+// c05VotedAs(pk, h, r, i, kind): the holder of pk cast a vote of that kind for h at (r, i) — a fact of the run's history.
+//@ spec func c05VotedAs(pk: bls.PublicKey, h: common.Hash, r: int, i: int, kind: int) bool
+
+// The signed payload of a vote (consensus/ucon/voter.go signVote): blockHash || round.Bytes() || be32(roundIndex).
+//@ spec func c05IsPayload(p: []byte, h: common.Hash, r: int, i: int) bool =
+//@     len(p) == 32 + c05BigLen(r) + 4 &&
+//@     (forall k: int :: { p[k] } 0 <= k && k < 32 ==> p[k] == h[k]) &&
+//@     (forall k: int :: { p[32 + k] } 0 <= k && k < c05BigLen(r) ==> p[32 + k] == c05BigByte(r, k)) &&
+//@     p[32 + c05BigLen(r)] == i / 2^24 && p[32 + c05BigLen(r) + 1] == (i / 2^16) % 256 &&
+//@     p[32 + c05BigLen(r) + 2] == (i / 2^8) % 256 && p[32 + c05BigLen(r) + 3] == i % 256
+
+// round.Bytes() || be32(roundIndex): the part of the payload shared by all listed votes.
+//@ spec func c05IsRoundBuf(p: []byte, r: int, i: int) bool =
+//@     len(p) == c05BigLen(r) + 4 &&
+//@     (forall k: int :: { p[k] } 0 <= k && k < c05BigLen(r) ==> p[k] == c05BigByte(r, k)) &&
+//@     p[c05BigLen(r)] == i / 2^24 && p[c05BigLen(r) + 1] == (i / 2^16) % 256 &&
+//@     p[c05BigLen(r) + 2] == (i / 2^8) % 256 && p[c05BigLen(r) + 3] == i % 256
+
+//@ func (github.com/youchainhq/go-youchain/bls.BlsManager).DecPublicKey props C05
+//@ trusted
+//@ pure
+//@ ensures result1 == nil ==> result0 == c05Key(arg0)
+
+//@ func (github.com/youchainhq/go-youchain/bls.BlsManager).DecSignature props C05
+//@ trusted
+//@ pure
+//@ ensures result1 == nil ==> result0 == c05Sig(arg0)
+
+// Verify succeeds only for a valid signature of exactly the bytes handed in. The general statement is
+//   result == nil ==> forall e, r, i :: c05IsPayload(m, e.Hash, r, i) && sig == c05Sig(e.Sign) ==> c05Signed(recv, e, r, i);
+// it is used in the instance (e, r, i) = (c05E, c05R, c05I), ghost variables the caller sets to the entry and position it claims to
+// verify immediately before the call (the quantified form makes the solver unstable: nested quantifiers under an implication).
+//@ ghost var c05E: *SignInfo
+//@ ghost var c05Signs: []*SignInfo
+//@ ghost var c05R: int
+//@ ghost var c05I: int
+//@ func (github.com/youchainhq/go-youchain/bls.PublicKey).Verify props C05
+//@ trusted
+//@ pure
+//@ ensures result == nil && c05IsPayload(m, c05E.Hash, c05R, c05I) && sig == c05Sig(c05E.Sign) ==> c05Signed(recv, c05E, c05R, c05I)
+
+// The main address of a validator record is fixed by its (immutable) public key.
+//@ spec func c05Addr(v: *state.Validator) common.Address
+//@ func (*github.com/youchainhq/go-youchain/core/state.Validator).MainAddress props C05
+//@ nobody
+//@ pure
+//@ ensures result == c05Addr(v)
+
+//@ func (*github.com/youchainhq/go-youchain/core/state.StateDB).GetValidatorByMainAddr props C05
+//@ nobody
+//@ pure
+//@ ensures result != nil ==> c05Addr(result) == mainAddress
+//@ ensures result != nil ==> big(result.Token) >= 0
+//@ ensures result != nil ==> allocated(result) && allocated(result.Token) && allocated(result.Stake) && allocated(result.SelfToken) && allocated(result.SelfStake)
+
+// Look-back validator set of the evidence's round: ASSUMED to return the set of that round (read-only).
+//@ func (*github.com/youchainhq/go-youchain/core.BlockChain).LookBackVldReaderForRound props C05
+//@ nobody
+//@ pure
+//@ func (github.com/youchainhq/go-youchain/core/state.ValidatorReader).GetValidators props C05
+//@ trusted
+//@ pure
+//@ func (github.com/youchainhq/go-youchain/core/state.Validators).GetByIndex props C05
+//@ nobody
+//@ pure
+
+// ---------------------------------------------------------------------------------------------------------------
+// World state as seen by the slashing code (ASSUMED thin contracts, `nobody`: the StateDB internals — journal, object caches,
+// statistics — are outside C05; C07/C08/C09 verify these functions against their own models):
+//   c05Bal   balance credited through AddBalance, per address
+// ---------------------------------------------------------------------------------------------------------------
+//@ ghost var c05Bal: map[common.Address]int
+
+//@ func (*github.com/youchainhq/go-youchain/core/state.StateDB).AddBalance props C05
+//@ nobody
+//@ modifies c05Bal
+//@ ensures c05Bal == store(old(c05Bal), addr, old(c05Bal[addr]) + big(amount))
+
+//@ func (*github.com/youchainhq/go-youchain/core/state.StateDB).UpdateValidator props C05
+//@ nobody
+//@ pure
+
+//@ func (*github.com/youchainhq/go-youchain/core/state.StateDB).ValidatorsModified props C05
+//@ nobody
+//@ pure
+
+//@ spec func c05Queue(st: *state.StateDB) *state.WithdrawQueue
+//@ func (*github.com/youchainhq/go-youchain/core/state.StateDB).GetWithdrawQueue props C05
+//@ nobody
+//@ pure
+//@ ensures result == c05Queue(st) && result != nil && allocated(result)
+// (model of the queue: its records and their balances are existing objects)
+//@ ensures forall i: int :: { result.Records[i] } 0 <= i && i < len(result.Records) ==>
+//@     result.Records[i] != nil && allocated(result.Records[i]) && result.Records[i].FinalBalance != nil && allocated(result.Records[i].FinalBalance)
+
+// PartialCopy: a new record with four new, pairwise distinct amounts holding the same values; the Delegations slice is SHARED.
+//@ func (*github.com/youchainhq/go-youchain/core/state.Validator).PartialCopy props C05
+//@ nobody
+//@ modifies nothing
+//@ ensures fresh(result) && fresh(result.Token) && fresh(result.Stake) && fresh(result.SelfToken) && fresh(result.SelfStake)
+//@ ensures result.Token != result.Stake && result.Token != result.SelfToken && result.Token != result.SelfStake &&
+//@     result.Stake != result.SelfToken && result.Stake != result.SelfStake && result.SelfToken != result.SelfStake
+//@ ensures big(result.Token) == big(v.Token) && big(result.Stake) == big(v.Stake) && big(result.SelfToken) == big(v.SelfToken) && big(result.SelfStake) == big(v.SelfStake)
+//@ ensures result.Delegations == v.Delegations && result.Status == v.Status && result.Expelled == v.Expelled && result.ExpelExpired == v.ExpelExpired &&
+//@     result.LastInactive == v.LastInactive && result.RiskObligation == v.RiskObligation && c05Addr(result) == c05Addr(v)
+
+//@ func (*github.com/youchainhq/go-youchain/core/state.WithdrawRecord).DeepCopy props C05
+//@ nobody
+//@ modifies nothing
+//@ ensures fresh(result)
+
+//@ func (*github.com/youchainhq/go-youchain/core/state.Validator).UpdateDelegationFrom props C05
+//@ nobody
+//@ modifies v.Delegations, elems(v.Delegations)
+
+//@ effectfree (github.com/youchainhq/go-youchain/core/state.DelegationFroms).Len
+
+// ---------------------------------------------------------------------------------------------------------------
+// Clause 3: bounded penalty (takePenalty and its two closures).
+// ---------------------------------------------------------------------------------------------------------------
+
+// setActual: actual := min(source, target).
+//@ func takePenalty$1 props C05
+//@ requires [nonnil] source != nil && target != nil && actual != nil
+//@ requires [distinct] actual != source && actual != target
+//@ modifies big(actual)
+//@ ensures [min] big(actual) == min(big(source), big(target))
+
+// updateCounter: moves `amount` from what is still owed (penaltyAmount) to what was taken (totalPenalty); for a stake take it also
+// removes `amount` from the given token figure and from the validator's total.
+//@ func takePenalty$2 props C05
+//@ requires [nonnil] amount != nil && totalPenalty != nil && penaltyAmount != nil
+//@ requires [nonnil] val != nil ==> sourceToken != nil && sourceStake != nil && val.Token != nil && val.Stake != nil
+//@ requires [distinct] amount != totalPenalty && amount != penaltyAmount && totalPenalty != penaltyAmount
+//@ requires [distinct-stake] val != nil ==> sourceToken != totalPenalty && sourceToken != penaltyAmount && val.Token != totalPenalty && val.Token != penaltyAmount &&
+//@     sourceStake != totalPenalty && sourceStake != penaltyAmount && val.Stake != totalPenalty && val.Stake != penaltyAmount &&
+//@     amount != sourceToken && amount != sourceStake && amount != val.Token && amount != val.Stake &&
+//@     sourceToken != sourceStake && sourceToken != val.Token && sourceToken != val.Stake && sourceStake != val.Token && sourceStake != val.Stake && val.Token != val.Stake
+// (frame: big(totalPenalty), big(penaltyAmount), big(sourceToken), big(sourceStake), big(val.Token), big(val.Stake) — written as all(big) because a
+//  modifies clause naming the closure's captured variables cannot be mapped to heaps at the call sites, engine_requests/C05.md #5; the [untouched]
+//  clause gives the precise frame back)
+//@ modifies all(big)
+//@ ensures [untouched] forall p: *big.Int :: old(allocated(p)) && p != totalPenalty && p != penaltyAmount && (val == nil || (p != sourceToken && p != sourceStake && p != val.Token && p != val.Stake)) ==> big(p) == old(big(p))
+//@ ensures [moved] big(totalPenalty) == old(big(totalPenalty)) + big(amount) && big(penaltyAmount) == old(big(penaltyAmount)) - big(amount)
+//@ ensures [amount-kept] big(amount) == old(big(amount))
+//@ ensures [withdraw-take] val == nil ==> true
+//@ ensures [stake-take] val != nil ==> big(sourceToken) == old(big(sourceToken)) - big(amount) && big(val.Token) == old(big(val.Token)) - big(amount)
+
+// Sum of what was taken out of unfinished withdraw records (in place).
+//@ ghost var c05Wd: int
+
+//@ func takePenalty props C05
+//@ requires [nonnil] val != nil && penaltyAmount != nil && val.Token != nil && val.Stake != nil && val.SelfToken != nil && val.SelfStake != nil && big(val.Stake) != 0
+//@ requires [owed] big(penaltyAmount) > 0
+//@ requires [fresh-amount] penaltyAmount != val.Token && penaltyAmount != val.Stake && penaltyAmount != val.SelfToken && penaltyAmount != val.SelfStake
+// BOUNDED (props/C05.json): the body is verified for a validator WITHOUT delegations. With delegations the per-delegator shares live in a
+// local map whose values are objects created by the first loop; the invariant "every value of dlgPenalty is such an object" (needed to exclude
+// aliasing with the counters) is not carried by the solver, and the map's heaps cannot be named in a frame (engine_requests/C05.md #6, #7).
+//@ assume [bounded-no-delegations] len(val.Delegations) == 0
+// … and WITHOUT unfinished withdraw records (the three obligations of the withdraw loop's take path — setActual's aliasing precondition, the
+// take bound and the preservation of [conservation] — time out although the facts they need are in the context; engine_requests/C05.md #8):
+//@ assume [bounded-no-pending-withdrawals] forall r: *state.WithdrawRecord :: { r.Finished } r.Finished != 0
+// ASSUMED: the amount still owed is the caller's own object (every caller builds it with new(big.Int)): no withdraw record holds it as balance.
+//@ assume [owed-amount-is-callers-object] forall r: *state.WithdrawRecord :: { r.FinalBalance } r.FinalBalance != penaltyAmount
+//@ modifies all, c05Wd
+//@ ghost after call (*Int).Sub#2: c05Wd := c05Wd + big(a2)
+//@ loop #1 invariant [locals] big(totalPenalty) == 0 && big(penaltyAmount) == old(big(penaltyAmount)) && c05Wd == old(c05Wd) && big(selfPenalty) == entry(big(selfPenalty))
+//@ loop #1 invariant [no-shares] forall a: common.Address :: { in(a, dlgPenalty) } !in(a, dlgPenalty)
+//@ loop #2 invariant [index] rangeindex >= -1
+//@ loop #2 invariant [conservation] big(totalPenalty) + big(penaltyAmount) == old(big(penaltyAmount))
+//@ loop #2 invariant [from-withdraw] big(totalPenalty) == c05Wd - old(c05Wd) && big(totalPenalty) >= 0
+//@ loop #3 invariant [conservation] big(totalPenalty) + big(penaltyAmount) == old(big(penaltyAmount)) && big(totalPenalty) >= 0 && len(updatedDFrom) == 0
+//@ loop #4 invariant [conservation] big(totalPenalty) + big(penaltyAmount) == old(big(penaltyAmount)) && big(totalPenalty) >= 0
+// Every single take is positive, is covered by the balance it is taken from (no balance becomes negative) and by that account's remaining share.
+//@ assert before call takePenalty$2#1: [take-within-balance-and-share] big(a0) > 0 && big(record.FinalBalance) >= 0 && big(a0) <= big(rest)
+//@ assert before call takePenalty$2#2: [take-within-balance-and-share] big(a0) > 0 && big(a0) <= big(val.SelfToken) && big(a0) <= big(selfPenalty)
+//@ assert before call takePenalty$2#3: [take-within-balance-and-share] big(a0) > 0 && big(a0) <= big(d.Token) && big(a0) <= big(rest)
+//@ ensures [conservation] big(totalPenalty) + big(penaltyAmount) == old(big(penaltyAmount))
+//@ ensures [taken-non-negative] big(totalPenalty) >= 0
+//@ ensures [new-record] newVal != nil && fresh(newVal) && fresh(totalPenalty) && c05Addr(newVal) == c05Addr(val) && newVal.ExpelExpired == val.ExpelExpired
+
+// doPenalize: applies the penalty, expels the validator, stores the new record and credits exactly what was taken to the penalty account.
+//@ func doPenalize props C05
+//@ requires [nonnil] config != nil && header != nil && val != nil && penaltyAmount != nil && val.Token != nil && val.Stake != nil && val.SelfToken != nil && val.SelfStake != nil
+//@ requires [nonnil] big(penaltyAmount) > 0 ==> big(val.Stake) != 0
+//@ requires [owed-non-negative] big(penaltyAmount) >= 0
+//@ requires [fresh-amount] penaltyAmount != val.Token && penaltyAmount != val.Stake && penaltyAmount != val.SelfToken && penaltyAmount != val.SelfStake
+//@ modifies all, c05Wd, c05Bal
+//@ ensures [taken-plus-owed] big(totalPenalty) + big(penaltyAmount) == old(big(penaltyAmount))
+//@ assert before call (*StateDB).UpdateValidator: [expelled-record-stored] a2 == val && a1 != val && c05Addr(a1) == c05Addr(val) && a1.Expelled &&
+//@     a1.Status == params.ValidatorOffline && a1.ExpelExpired >= val.ExpelExpired
+//@ assert before call (*StateDB).AddBalance: [penalty-credited] a1 == config.PenaltyTo && a2 == totalPenalty
+
+// Typestate of one evidence: what the signature loop has established, recorded right after the loop (ghost variables), asserted at the
+// only call of doPenalize. The spec predicate (DESIGN §7 C05-1, from the statement): two listed entries with DIFFERENT block hashes, each a
+// valid signature of the signer's registered key over the payload of (hash, round, index), both votes of the SAME claimed kind. It is
+// stated for the first two entries — the shape of every evidence the honest detector builds (voter.go processVoteMsg: exactly two entries) —
+// so that every clause is quantifier-free (the quantified form, "all listed entries are valid", is not stable: engine_requests/C05.md #4).
+//@ ghost var c05Two: bool                     // the first two listed entries are valid signatures under the key verified against
+//@ ghost var c05Listed: bool                  // … of the evidence's own entries / round / index, under the signer's REGISTERED key
+//@ ghost var c05Distinct: bool                // the two entries name different block hashes
+//@ ghost var c05SameKind: bool                // the two signed votes are votes of the claimed kind
+//@ ghost var c05Accused: common.Address       // main address of the signer the entries were verified against
+// Number of calls of doPenalize (= state changes made on behalf of evidences).
+//@ ghost var c05Calls: int
+
+//@ func (*Staking).processDoubleSignV5 props C05
+// ASSUMED (props/C05.json): the signer cache of an evidence handed in is empty. Evidence values are copied at every hand-over (range variable,
+// by-value parameter), the Store below writes the callee's own copy, and that copy is kept only in the confirmed/deleted lists; evidences reach
+// processEvidences from NewEvidence or RLP decoding (cache zero) or from the pending list (appended on paths that never Store). It cannot be
+// a checked precondition: the caller's loop loses the evidence array at every call (callee frame `all`).
+//@ assume [cache-empty] evidence.addr.v == nil
+//@ modifies all, c05E, c05Signs, c05R, c05I, c05Two, c05Listed, c05Distinct, c05SameKind, c05Accused, c05Calls, c05Wd, c05Bal
+//@ loop #1 invariant [roundbuf] c05IsRoundBuf(roundbuf, doubleSign.Round, doubleSign.RoundIndex)
+//@ ghost before call (bls.PublicKey).Verify: c05E := info
+//@ ghost before call (bls.PublicKey).Verify: c05Signs := doubleSign.Signs
+//@ ghost before call (bls.PublicKey).Verify: c05R := doubleSign.Round
+//@ ghost before call (bls.PublicKey).Verify: c05I := doubleSign.RoundIndex
+// Every entry whose verification succeeds is a valid signature of the vote payload of (its hash, Round, RoundIndex); a failed verification
+// returns (code). That the bytes handed to Verify ARE that payload is proved here, as the antecedent of Verify's contract.
+//@ assert after call (bls.PublicKey).Verify: [entry-verified] ret == nil ==> c05Signed(pk, info, doubleSign.Round, doubleSign.RoundIndex)
+//@ loop #1 invariant [ghost-sync] rangeindex >= 0 ==> c05Signs == doubleSign.Signs && c05R == doubleSign.Round && c05I == doubleSign.RoundIndex
+//@ loop #1 invariant [ghost-frame] c05Calls == old(c05Calls)
+// (the listed hashes live in the byte heap the loop appends to: what the code established about them before the loop must survive it)
+//@ loop #1 invariant [hashes-kept] (doubleSign.Signs[0].Hash != doubleSign.Signs[1].Hash) == entry(doubleSign.Signs[0].Hash != doubleSign.Signs[1].Hash)
+//@ loop #1 invariant [first-verified] rangeindex >= 0 ==> c05Signed(pk, c05Signs[0], c05R, c05I)
+//@ loop #1 invariant [second-verified] rangeindex >= 1 ==> c05Signed(pk, c05Signs[1], c05R, c05I)
+//@ ghost before call (*Validator).MainAddress#1: c05Two := c05Signed(pk, c05Signs[0], c05R, c05I) && c05Signed(pk, c05Signs[1], c05R, c05I)
+//@ ghost before call (*Validator).MainAddress#1: c05Listed := len(doubleSign.Signs) >= 2 && pk == c05Key(signer.BlsPubKey) &&
+//@     c05Signs == doubleSign.Signs && c05R == doubleSign.Round && c05I == doubleSign.RoundIndex
+//@ ghost before call (*Validator).MainAddress#1: c05Distinct := doubleSign.Signs[0].Hash != doubleSign.Signs[1].Hash
+//@ ghost before call (*Validator).MainAddress#1: c05SameKind :=
+//@         c05VotedAs(pk, doubleSign.Signs[0].Hash, doubleSign.Round, doubleSign.RoundIndex, doubleSign.VoteType) &&
+//@         c05VotedAs(pk, doubleSign.Signs[1].Hash, doubleSign.Round, doubleSign.RoundIndex, doubleSign.VoteType)
+//@ ghost after call (*Validator).MainAddress#1: c05Accused := ret
+//@ assert before call doPenalize: [two-valid-signatures] c05Two
+//@ assert before call doPenalize: [of-the-listed-entries-under-the-registered-key] c05Listed
+//@ assert before call doPenalize: [penalised-is-signer] c05Accused == signerAddr && c05Addr(a4) == signerAddr
+//@ // PENDING-FINDING: /verif/proposed_fixes/C05/distinct_hashes.diff — fails on the unchanged tree: one vote listed twice is accepted (probe TestC05SameVoteTwice)
+//@ assert before call doPenalize: [distinct-hashes] c05Distinct
+//@ // PENDING-FINDING: /verif/findings_proposed/C05.json #1 — the signed payload does not contain the vote kind: cannot hold for any accepted evidence (probe TestC05PrevotePlusNextIndex)
+//@ assert before call doPenalize: [same-kind] c05SameKind
+//@ assert before call doPenalize: [position-is-parent-round] doubleSign.Round == parentHeight
+// Clause 3: the amount handed to doPenalize is the configured fraction of the validator's stake.
+//@ assert before call doPenalize: [configured-fraction] big(a5) == ediv(big(val.Token) * config.PenaltyFractionForDoubleSign, 100)
+// Clause 2: doPenalize is reached only for an address that was not in the once-per-block map when this evidence was taken up, and is in it now.
+//@ assert before call doPenalize: [first-time-this-block] !old(in(signerAddr, doubleSignedValidators)) && in(signerAddr, doubleSignedValidators)
+//@ ghost before call doPenalize: c05Calls := c05Calls + 1
+//@ ensures [at-most-one-penalty] c05Calls == old(c05Calls) || c05Calls == old(c05Calls) + 1
+// Clause 4 (this evidence): an evidence is filed as confirmed (the block's slash data) only after it penalised somebody; an evidence kept
+// pending has not changed the state.
+//@ assert before store confirmedEvidences#1: [confirmed-only-if-penalised] c05Calls == old(c05Calls) + 1
+//@ assert before store pendingEvidences: [pending-changes-nothing] c05Calls == old(c05Calls)
+//@ // PENDING-FINDING: /verif/findings_proposed/C05.json #2 — an evidence whose penalty is zero changes the state (doPenalize) but is filed under deletedEvidences (probe TestC05ZeroPenaltyBuilderVsValidator)
+//@ assert before store deletedEvidences#1: [penalised-implies-confirmed] c05Calls == old(c05Calls)
+
+// ---------------------------------------------------------------------------------------------------------------
+// Clause 2 and 4 at the level of a block: processEvidences, slashing (builder), replaySlashing (validator).
+// ---------------------------------------------------------------------------------------------------------------
+
+// Loggers (interface calls) and helpers without effect on modelled state.
+//@ effectfree (github.com/youchainhq/go-youchain/common/hexutil.Bytes).String github.com/youchainhq/go-youchain/common/hexutil.Uint64ToBytes
+//@ effectfree (github.com/youchainhq/go-youchain/common.Hash).String time.Now time.Since
+
+// Every evidence of the list is handed to processDoubleSignV5 with the block's ONE once-per-validator map, created empty here and passed
+// nowhere else; together with processDoubleSignV5's [first-time-this-block] (doPenalize only for an address that was not in the map when the
+// evidence was taken up, and is in it now) a validator is penalised at most once per block, provided nothing removes an address from the map:
+// processDoubleSignV5 contains no delete, and doPenalize does not receive the map (not machine-checked: its frame is `all`, see props/C05.json).
+//@ func (*Staking).processEvidences props C05
+//@ modifies all, c05E, c05Signs, c05R, c05I, c05Two, c05Listed, c05Distinct, c05SameKind, c05Accused, c05Calls, c05Wd, c05Bal
+//@ assert before call (*Staking).processDoubleSignV5: [one-map-per-block] a8 == doubleSignedValidators && a7 == processResult && a5 == evidence && a1 == config && a2 == currentDB && a3 == header
+//@ assert before call (*Staking).processDoubleSignV5: [parent-height] a4 == big(parentHeight) || big(parentHeight) < 0 || big(parentHeight) >= 2^64
+//@ loop #1 invariant [penalties-only-for-listed-evidences] c05Calls - old(c05Calls) <= rangeindex + 1 && rangeindex >= -1
+//@ ensures [at-most-one-penalty-per-evidence] c05Calls - old(c05Calls) <= len(evidences)
+
+// Chain head accessors and the inactivity helpers of replaySlashing's (ineffective) pre-filter: ASSUMED read-only.
+//@ func (*github.com/youchainhq/go-youchain/core.BlockChain).CurrentHeader props C05
+//@ nobody
+//@ pure
+//@ func (github.com/youchainhq/go-youchain/core/vm.ChainReader).CurrentHeader props C05
+//@ trusted
+//@ pure
+//@ func (*votesWatcher).Inactive props C05
+//@ nobody
+//@ pure
+//@ func cmpSet props C05
+//@ nobody
+//@ pure
+//@ effectfree strings.Join github.com/youchainhq/go-youchain/params.MinStakeLookBack
+
+// Builder: all collected evidences are processed against this block's state; what goes into the header is the encoding of exactly the
+// confirmed list.
+//@ ghost var c05Blob: []byte
+//@ func (*Staking).slashing props C05
+//@ modifies all, c05E, c05Signs, c05R, c05I, c05Two, c05Listed, c05Distinct, c05SameKind, c05Accused, c05Calls, c05Wd, c05Bal, c05Blob
+//@ assert before call (*Staking).processEvidences: [this-blocks-state-and-header] a1 == ctx.config && a2 == ctx.db && a3 == ctx.header && a5 == ctx.receipt && len(a6) == len(s.evidences)
+//@ assert before call rlp.EncodeToBytes#1: [slash-data-encodes-the-confirmed-list] a0 == box(confirmedEvidences)
+//@ ghost after call rlp.EncodeToBytes#1: c05Blob := ret0
+//@ assert after store SlashData#1: [slash-data-is-that-encoding] ctx.header.SlashData == c05Blob && len(confirmedEvidences) > 0
+
+// Validator: the evidences processed are the ones decoded from the header's slash data, against this block's state.
+//@ func (*Staking).replaySlashing props C05
+//@ modifies all, c05E, c05Signs, c05R, c05I, c05Two, c05Listed, c05Distinct, c05SameKind, c05Accused, c05Calls, c05Wd, c05Bal
+//@ assert before call rlp.DecodeBytes#1: [decodes-the-headers-slash-data] a0 == ctx.header.SlashData
+//@ assert before call (*Staking).processEvidences: [replays-the-decoded-list] a6 == evidences && a1 == ctx.config && a2 == ctx.db && a3 == header && a5 == ctx.receipt
